@@ -497,7 +497,8 @@ Proof.
     destruct (N.eqb_spec (wslen b) 0) as [Ez|Enz].
     + cbn [good]. split; [|exact HI]. exists (wtext b), (wline b).
       rewrite set_text_line_id. destruct b; prj; subst; reflexivity.
-    + destruct (spacetag b) as [st|] eqn:Est.
+    + destruct (N.eqb_spec (wwidth b) 0) as [Hw0|_]; [lia|].
+      destruct (spacetag b) as [st|] eqn:Est.
       2:{ exfalso. apply Hst; [lia|reflexivity]. }
       assert (Hz : tlen_ (wline b) = 0) by (destruct Hor; [lia|assumption]).
       set (tc := N.min (wslen b) (wwidth b)).
